@@ -31,7 +31,6 @@ Undump(e) ==     \* JSON objects come back as records; arrays as sequences: re-s
     [] OTHER -> e
 Got(out) == [i \in 1..Len(out.rules) |-> [name |-> out.rules[i].name, body |-> Flat(Undump(out.rules[i].body))]]
 
-Runtime == {"bytes", "fmt", "io", "os", "slices", "strconv"}
 ImportSet(imps) == {IF imps[i].alias = "" THEN imps[i].path ELSE imps[i].path \o "=" \o imps[i].alias : i \in 1..Len(imps)}
 If(c, x) == IF c THEN <<x>> ELSE <<>>
 Mis(sc, o, field, want, got) == [kind |-> "mis", prop |-> "C10", id |-> sc.id, variant |-> o.variant, field |-> field, style |-> sc.style,
@@ -49,8 +48,11 @@ JudgeOut(sc, o) ==
         IN If(b.bad # "", Mis(sc, o, "builder-discipline", "", b.bad)) \o
            If(b.bad = "" /\ ~Closed(b), Mis(sc, o, "builder-left-open", "nothing under construction at the end", Len(b.l))) \o
            If(b.bad = "" /\ built # Got(o), Mis(sc, o, "builder-model-tree", built, Got(o)))) \o
-       If({o.imports[i] : i \in 1..Len(o.imports)} # ImportSet(sc.imports) \cup Runtime,
-          Mis(sc, o, "imports", ImportSet(sc.imports) \cup Runtime, o.imports)) \o
+       \* imports keep their path and alias: every import of the grammar is in the generated import list as written, and the
+       \* generator invents no alias of its own (which packages the runtime itself imports is not our business)
+       (LET got == {<<o.importpairs[i][1], o.importpairs[i][2]>> : i \in 1..Len(o.importpairs)}
+            want == {<<sc.imports[i].path, sc.imports[i].alias>> : i \in 1..Len(sc.imports)}
+        IN If(~(want \subseteq got) \/ \E x \in got : x[2] # "" /\ x \notin want, Mis(sc, o, "imports", want, got))) \o
        If(o.package # "g" \/ o.struct # "T", Mis(sc, o, "header", <<"g", "T">>, <<o.package, o.struct>>)))
   ELSE \* a mutated text: an error, or a grammar; never a crash, never a parser without rules
     If(o.panic # "", Mis(sc, o, "mutant-panic", "", o.panic)) \o
